@@ -376,3 +376,13 @@ def _collect_bitset(ex, n, src):
     s = BitSetV(n)
     for x in seq_of(ex, src): s.add(ex, deref(x))
     return s
+
+
+@model(r'<&' + SET + r'<.*> as (?:std::ops::)?(Sub|BitOr|BitAnd)(?:<.*>)?>::(sub|bitor|bitand)')
+def set_operator(ex, args, m):
+    a = as_set(args[0]); b = as_set(args[1]); k = m.group(1)
+    if hasattr(a, 'algebra'): return a.algebra(ex, {'Sub': 'difference', 'BitOr': 'union', 'BitAnd': 'intersection'}[k], b)
+    if k == 'Sub': items = [clone_val(x) for x in a.items if b.index(ex, x) is None]
+    elif k == 'BitAnd': items = [clone_val(x) for x in a.items if b.index(ex, x) is not None]
+    else: items = [clone_val(x) for x in a.items] + [clone_val(x) for x in b.items if a.index(ex, x) is None]
+    return SetV(items)
